@@ -66,6 +66,20 @@ def strategy_(draw, tier):
         'init': draw(st.permutations(['shared', 'layer'])),
     }
     init = {'sum': draw(st.integers(0, 50)), 'ssum': draw(st.integers(0, 50))}
+    if draw(st.integers(0, 3)) == 0:
+        # decimal timesteps and intervals without a precision: the event times
+        # are sums of floats (0.1+0.1+0.1 != 0.3), but they are the same sums
+        # whatever the listing order
+        def dec(x):
+            return round(x * 4) / 10.0          # k/4 -> k/10
+        for p in base['procs']:
+            p['ts'] = [dec(t) for t in p['ts']]
+        for c in base['calls']:
+            c['interval'] = dec(c['interval'])
+        base['t0'] = dec(base['t0'])
+        if base.get('toggle_ts'):
+            base['toggle_ts'] = dec(base['toggle_ts'])
+        base['decimal'] = True
     return {'kind': 'perm', 'base': base, 'orders': orders, 'init': init}
 
 
@@ -292,6 +306,8 @@ def run_perm(spec, res):
 def run_case(spec):
     res = Result()
     res.label('kind.' + spec['kind'])
+    if spec.get('base', {}).get('decimal'):
+        res.label('perm.decimal_timesteps')
     try:
         if spec['kind'] == 'snapshot':
             run_snapshot(spec, res)
